@@ -532,7 +532,7 @@ pub fn run(ctx: &Ctx, started: Instant) -> i32 {
         rule: "ack-heavy proptest packets (PUBACK family, SUBACK/UNSUBACK with up to 80 codes, CONNACK, DISCONNECT, AUTH, reason strings up to 65535 bytes, \
                up to 40 user properties) x every outbound limit 1..=64, 0, sampled 65..4096 and {65535, 65536, 2^21, 2^28-1, 2^28, u32::MAX} x Request-Problem-Information \
                on/off (flag set through the public path: the codec decodes a CONNECT); sampled (any packet, any limit) pairs with shrinking; encodes that must fail \
-               (over-long strings/binary, QoS 0 with id, QoS>0 without) checked for leftover bytes; v3 packets x max size; var_int_len / var_int_len_from_size relation; connection level (v5 server): CONNECT Maximum Packet Size 8..300 x handshake accepted / refused with a bare code / refused with a CONNACK carrying a reason string of 0..250 bytes and 0..8 user properties: no frame the server writes (CONNACK, the DISCONNECT after a later protocol error) exceeds the announced maximum. \
+               (over-long strings/binary, QoS 0 with id, QoS>0 without) checked for leftover bytes; v3 packets x max size; var_int_len / var_int_len_from_size relation; connection level (v5 server): CONNECT Maximum Packet Size 8..300 x handshake accepted / refused with a bare code / refused with a CONNACK carrying a reason string of 0..250 bytes and 0..8 user properties: no frame the server writes (CONNACK, the DISCONNECT after a later protocol error) exceeds the announced maximum; and a CONNECT that declines problem information x CONNACK capability flags rewritten by the handshake service: SUBACK / UNSUBACK built with a reason string and a user property go out without them (with them when nothing was declined). \
                Non-trivial = limit in force and (something dropped, over-size error, or limit < 16), or problem info stripped, or a failing encode; distinct = (kind, limit bucket, \
                #props dropped, reason dropped, outcome, flag)"
             .into(),
@@ -614,7 +614,69 @@ pub async fn run_conn(c: ConnCase) -> Result<CaseInfo, Failure> {
     Ok(info)
 }
 
+/// connection level: a CONNECT that declines problem information keeps diagnostics off the acknowledgements, whatever the
+/// handshake service writes into the CONNACK afterwards (capability flags are kept in the same codec state)
+#[derive(Clone, Copy, Debug, PartialEq, Eq, Hash, Serialize, Deserialize)]
+pub struct InfoCase {
+    pub decline: bool,
+    pub no_retain: bool,
+    pub no_sub_ids: bool,
+}
+
+pub async fn run_info(c: InfoCase) -> Result<CaseInfo, Failure> {
+    use crate::bed::any::{Cfg, Eut};
+    use crate::bed::{CtlPlan, Role};
+    let mut cfg = Cfg::default();
+    cfg.v5.connect.req_prob_info = c.decline.then_some(false);
+    cfg.v5.no_retain = c.no_retain;
+    cfg.v5.no_sub_ids = c.no_sub_ids;
+    let eut = Eut::start(Role::V5Server, &cfg).await;
+    let _ = eut.handshake(&cfg).await;
+    let fail = |rule: &str, d: String| Failure::new(rule, format!("C09/conn/{rule}"), format!("{d}; case {c:?}")).with_case(json!({"kind": "info", "case": c}));
+    if eut.done().is_some() {
+        return Err(fail("harness-handshake", format!("{:?}", eut.done())));
+    }
+    let app = eut.app().clone();
+    app.ctl_plans.borrow_mut().insert(0, CtlPlan::AckDiag);
+    app.ctl_plans.borrow_mut().insert(1, CtlPlan::AckDiag);
+    eut.peer_send(&P5::Subscribe(s5::Sub5 { pid: 1, filters: vec![("a/b".into(), s5::SubOpts::default())], ..Default::default() }), &[]);
+    eut.settle().await;
+    eut.peer_send(&P5::Unsubscribe(s5::Unsub5 { pid: 2, filters: vec!["a/b".into()], ..Default::default() }), &[]);
+    eut.settle().await;
+    let (pk, _) = eut.packets();
+    let acks: Vec<&s5::SubAck5> = pk.iter().filter_map(|w| match &w.pkt { P5::SubAck(a) | P5::UnsubAck(a) => Some(a), _ => None }).collect();
+    if acks.len() != 2 {
+        return Err(fail("acks-missing", format!("{} of 2 acknowledgements written", acks.len())));
+    }
+    for a in &acks {
+        let has = a.reason_string.is_some() || !a.user_props.is_empty();
+        if c.decline && has {
+            return Err(fail("problem-info-not-stripped", format!("the CONNECT declined problem information, yet an acknowledgement carries {:?} / {:?}", a.reason_string, a.user_props)));
+        }
+        if !c.decline && !has {
+            return Err(fail("problem-info-lost", format!("problem information was not declined, yet the acknowledgement of packet {} lost its reason string and user property", a.pid)));
+        }
+    }
+    eut.finish().await;
+    let mut info = CaseInfo::nontrivial(&("info", c));
+    info.labels.push("conn-problem-info");
+    Ok(info)
+}
+
 fn conn_limits(stats: &mut Stats) {
+    {
+        let mut work = Vec::new();
+        for decline in [false, true] {
+            for no_retain in [false, true] {
+                for no_sub_ids in [false, true] {
+                    work.push(InfoCase { decline, no_retain, no_sub_ids });
+                }
+            }
+        }
+        let mut st = Stats::default();
+        crate::bed::run_list_bed("C09", work, &mut st, |c| json!({"kind": "info", "case": c}), run_info);
+        stats.merge(st);
+    }
     let mut work = Vec::new();
     for max in [8u32, 12, 16, 24, 40, 64, 100, 300] {
         work.push(ConnCase { max, outcome: 0, reason_len: 0, props: 0 });
@@ -633,6 +695,10 @@ fn conn_limits(stats: &mut Stats) {
 pub fn replay(path: &str) -> i32 {
     let case = super::load_case(path);
     match case["kind"].as_str() {
+        Some("info") => {
+            let res = serde_json::from_value::<InfoCase>(case["case"].clone()).map_err(|e| e.to_string()).map(|c| crate::bed::run_isolated("C09", c, &run_info));
+            super::report_replay("C09", path, res)
+        }
         Some("conn") => {
             let res = serde_json::from_value::<ConnCase>(case["case"].clone()).map_err(|e| e.to_string()).map(|c| crate::bed::run_isolated("C09", c, &run_conn));
             super::report_replay("C09", path, res)
